@@ -44,7 +44,7 @@ CHECKS = {
         design="6 C19"),
     "C07": dict(
         level="model_checking",
-        technique="TLA+ spec OutFile (declarative schedule + operational cursor arithmetic with predicted record count) model-checked with TLC (MC_OutFile); TLA+ spec FileName of the documented file numbering with its chain laws model-checked over all short stems (MC_FileName) and used by the trace specification for the names found on disk; exhaustive trace validation of ladim.main over (run length, period, split, layout, pvars, direction) with LadimTrace",
+        technique="TLA+ spec OutFile (declarative schedule + operational cursor arithmetic with predicted record count) model-checked with TLC (MC_OutFile); liveness of the composed model under weak fairness (every run ends having written exactly the scheduled records: MC_Ladim FairSpec, Terminates, AllRecordsWritten); TLA+ spec FileName of the documented file numbering with its chain laws model-checked over all short stems (MC_FileName) and used by the trace specification for the names found on disk; exhaustive trace validation of ladim.main over (run length, period, split, layout, pvars, direction) with LadimTrace",
         text="TLC checks for every run length, period, split and cold/warm start in the bound that the cursor arithmetic never writes into a closed file, writes exactly the scheduled records, fills files with numrec records (last fewer), writes particle variables to every file and closes it; every (nsteps, ops, numrec) combination of the bound is run through ladim.main and the normal exit, number of records, file sizes, numbering, and closing are validated by TLC against the history of output events.",
         note="Cold start in trace validation (warm start: model-checked here, trace-validated under C08).",
         design="6 C07"),
